@@ -7,9 +7,8 @@
 //   format_excel_f64_ref, get_row_column, get_row.  Assumed: get_row_and_optional_column (proved in unit a1), get_dimension,
 //   xml_reader, FromStr for CellErrorType, float / integer parsing, the quick-xml model below.
 //   Specifications are schema automata written from ECMA-376 (CT_Rst, CT_Sst, CT_MergeCells, CT_Cell / ST_CellType, sheetData) over
-//   the event sequence, in terms of LOCAL names and UNESCAPED text (namespace prefixes do not matter); every clause that the code
-//   satisfies only without CDATA is split into a proved clause (with that antecedent) and a general clause that FAILS
-//   (findings/xlsxxml.json).
+//   the event sequence, in terms of LOCAL names and UNESCAPED text (namespace prefixes do not matter; character data = Text events
+//   unescaped + CDATA sections literally).
 #![allow(unused_imports, dead_code, unused_variables, unused_mut, unused_assignments)]
 use vstd::prelude::*;
 use std::borrow::Cow;
@@ -93,7 +92,7 @@ pub ghost struct Ev {
     pub attrs: Seq<Attr>,  // attributes in document order (Start)
     pub raw: Seq<u8>,      // bytes of a Text event as written (still escaped)
     pub text: Seq<char>,   // content of a Text event after unescaping, literal content of a CData event
-    pub text_ok: bool,     // `unescape()` succeeds on this Text event
+    pub text_ok: bool,     // `unescape()` succeeds on this Text event / `decode()` succeeds on this CData event
 }
 /// index of the first ':' of s at or after i, s.len() if none
 pub open spec fn colon_at(s: Seq<u8>, i: int) -> int
@@ -192,6 +191,13 @@ impl<'a> BytesText<'a> {
 }
 impl<'a> BytesCData<'a> {
     pub uninterp spec fn ev(&self) -> Ev;
+    // TRUSTED: A-xml -- `decode` returns the literal content of the section in the document encoding (no entity resolution), or Err
+    #[verifier::external_body]
+    pub fn decode(&self) -> (r: Result<Cow<'a, str>, quick_xml::encoding::EncodingError>)
+        ensures
+            self.ev().text_ok ==> r is Ok && cow_ref(&r->Ok_0)@ == self.ev().text,
+            !self.ev().text_ok ==> r is Err,
+    { unimplemented!() }
 }
 // TRUSTED: A-xml -- `impl Deref<Target = [u8]>` of BytesText / BytesCData: the bytes of the event AS WRITTEN in the document (`raw`:
 // entity and character references NOT resolved).  Nothing relates `raw` to `text`.
@@ -418,7 +424,7 @@ pub open spec fn rst_step(e: Ev, s: RstSt, closing: Seq<u8>) -> RstStep {
         // content of a `t` element: character data only
         match e.kind {
             EvKind::Text => if !(s.lvl is Ph) && !e.text_ok { RstStep::Bad } else { RstStep::Next(RstSt { tbuf: s.tbuf + e.text, ..s }) },
-            EvKind::CData => RstStep::Next(RstSt { tbuf: s.tbuf + e.text, ..s }),
+            EvKind::CData => if !(s.lvl is Ph) && !e.text_ok { RstStep::Bad } else { RstStep::Next(RstSt { tbuf: s.tbuf + e.text, ..s }) },
             EvKind::Other => RstStep::Next(s),
             EvKind::Start => RstStep::Bad,
             EvKind::End =>
@@ -475,7 +481,6 @@ pub open spec fn rst_scan(ev: Seq<Ev>, i: int, s: RstSt, closing: Seq<u8>) -> Rs
 /// text of the string item (`si` or `is`) whose start tag is ev[i - 1]
 pub open spec fn rst_item(ev: Seq<Ev>, i: int, closing: Seq<u8>) -> RstRes { rst_scan(ev, i, rst_init(), closing) }
 
-pub open spec fn no_cdata(ev: Seq<Ev>, a: int, b: int) -> bool { forall|k: int| a <= k < b && 0 <= k < ev.len() ==> !(#[trigger] ev[k].kind is CData) }
 pub open spec fn ostr(o: Option<String>) -> Option<Seq<char>> { match o { Some(s) => Some(s@), None => None } }
 
 proof fn lemma_rst_end(ev: Seq<Ev>, i: int, s: RstSt, closing: Seq<u8>)
@@ -539,13 +544,25 @@ proof fn lemma_plain_names()
 proof fn witness_rst_plain()
     ensures ({ let ev = seq![ev_start(n_t()), ev_text(seq!['a', 'b']), ev_end(n_t()), ev_end(n_si())];
                let it = rst_item(ev, 0, n_si());
-               it.ok && !it.rich && it.text == Some(seq!['a', 'b']) && it.end == 3 && no_cdata(ev, 0, it.end) }),
+               it.ok && !it.rich && it.text == Some(seq!['a', 'b']) && it.end == 3 }),
 {
     lemma_plain_names(); lemma_names_distinct();
     let ev = seq![ev_start(n_t()), ev_text(seq!['a', 'b']), ev_end(n_t()), ev_end(n_si())];
     assert(n_t().len() != n_si().len());
     reveal_with_fuel(rst_scan, 6);
     assert(Seq::<char>::empty() + seq!['a', 'b'] =~= seq!['a', 'b']);
+}
+pub open spec fn ev_cdata(t: Seq<char>) -> Ev { Ev { kind: EvKind::CData, name: Seq::empty(), attrs: Seq::empty(), raw: Seq::empty(), text: t, text_ok: true } }
+/// <si><t>x<![CDATA[y]]>z</t></si>  -->  plain, "xyz": a CDATA section is character data like any other
+proof fn witness_rst_cdata()
+    ensures ({ let ev = seq![ev_start(n_t()), ev_text(seq!['x']), ev_cdata(seq!['y']), ev_text(seq!['z']), ev_end(n_t()), ev_end(n_si())];
+               let it = rst_item(ev, 0, n_si());
+               it.ok && !it.rich && it.text == Some(seq!['x', 'y', 'z']) && it.end == 5 }),
+{
+    lemma_plain_names(); lemma_names_distinct();
+    assert(n_t().len() != n_si().len());
+    reveal_with_fuel(rst_scan, 8);
+    assert(Seq::<char>::empty() + seq!['x'] + seq!['y'] + seq!['z'] =~= seq!['x', 'y', 'z']);
 }
 /// <si><r><t>a</t></r><rPh><t>x</t></rPh></si>  -->  rich, "a" (the phonetic run contributes nothing)
 proof fn witness_rst_rich_phonetic()
@@ -564,7 +581,7 @@ proof fn witness_rst_prefixed()
     ensures ({ let xsi = seq![0x78u8, 0x3au8, 0x73u8, 0x69u8]; let xr = seq![0x78u8, 0x3au8, 0x72u8]; let xt = seq![0x78u8, 0x3au8, 0x74u8];
                let ev = seq![ev_start(xr), ev_start(xt), ev_text(seq!['a']), ev_end(xt), ev_end(xr), ev_end(xsi)];
                let it = rst_item(ev, 0, xsi);
-               it.ok && it.rich && it.text == Some(seq!['a']) && it.end == 5 && no_cdata(ev, 0, it.end) }),
+               it.ok && it.rich && it.text == Some(seq!['a']) && it.end == 5 }),
 {
     let xsi = seq![0x78u8, 0x3au8, 0x73u8, 0x69u8]; let xr = seq![0x78u8, 0x3au8, 0x72u8]; let xt = seq![0x78u8, 0x3au8, 0x74u8];
     reveal_with_fuel(colon_at, 3);
@@ -590,26 +607,22 @@ proof fn witness_rst_none()
         final(xml).events() == old(xml).events() && final(xml).pos() >= old(xml).pos(),
         //# C01,C19.plain_first_t
         ({ let it = rst_item(old(xml).events(), old(xml).pos() as int, __arg1.0@);
-           it.ok && !it.rich && no_cdata(old(xml).events(), old(xml).pos() as int, it.end) ==>
+           it.ok && !it.rich ==>
                r is Ok && ostr(r->Ok_0) == it.text }),
         //# C01,C19.rich_runs_concat
         ({ let it = rst_item(old(xml).events(), old(xml).pos() as int, __arg1.0@);
-           it.ok && it.rich && no_cdata(old(xml).events(), old(xml).pos() as int, it.end) ==>
+           it.ok && it.rich ==>
                r is Ok && ostr(r->Ok_0) == it.text }),
         //# C01,C19.reader_left_after_closing_tag
         ({ let it = rst_item(old(xml).events(), old(xml).pos() as int, __arg1.0@);
-           it.ok && no_cdata(old(xml).events(), old(xml).pos() as int, it.end) ==>
-               final(xml).pos() == it.end + 1 }),
-        //# C19.cdata_text
-        ({ let it = rst_item(old(xml).events(), old(xml).pos() as int, __arg1.0@);
            it.ok ==>
-               r is Ok && ostr(r->Ok_0) == it.text && final(xml).pos() == it.end + 1 }),
+               final(xml).pos() == it.end + 1 }),
 //@@ before /let mut buf = /
     let ghost ev = xml.events();
     let ghost p0 = xml.pos() as int;
     let ghost cl = closing@;
     let ghost tot = rst_item(ev, p0, cl);
-    let ghost good = tot.ok && no_cdata(ev, p0, tot.end);
+    let ghost good = tot.ok;
     let ghost mut st = rst_init();
     proof { axiom_bytelits(); lemma_names_distinct(); if tot.ok { lemma_rst_end(ev, p0, st, cl); } }
 //@@ loop 0
@@ -617,7 +630,7 @@ proof fn witness_rst_none()
             ev == old(xml).events(), p0 == old(xml).pos(), cl == __arg1.0@,
             xml.events() == ev, xml.pos() >= p0, cl == closing@,
             tot == rst_item(ev, p0, cl),
-            good == (tot.ok && no_cdata(ev, p0, tot.end)),
+            good == tot.ok,
             b"r"@ == n_r(), b"t"@ == n_t(), b"rPh"@ == n_rph(),
             n_r() != n_t(), n_r() != n_rph(), n_t() != n_rph(),
             good ==> rst_scan(ev, xml.pos() as int, st, cl) == tot,
@@ -637,7 +650,6 @@ proof fn witness_rst_none()
         proof {
             if good {
                 assert(pos < ev.len());
-                assert(!(ev[pos].kind is CData));
                 assert(!(stp is Bad));
                 if stp is Next {
                     st = stp->Next_0; lemma_rst_end(ev, pos + 1, st, cl);
@@ -670,7 +682,7 @@ proof fn witness_rst_none()
                         ev == old(xml).events(), p0 == old(xml).pos(), cl == __arg1.0@,
                         xml.events() == ev, xml.pos() >= p0, cl == closing@, xml.pos() > pos, pos < ev.len(),
                         tot == rst_item(ev, p0, cl),
-                        good == (tot.ok && no_cdata(ev, p0, tot.end)),
+                        good == tot.ok,
                         good ==> e.ev().name == st1.tname,
                         good ==> st1.in_t && !(st1.lvl is Ph) && st1.plain is None && st1.skip == 0,
                         good ==> rst_scan(ev, xml.pos() as int, st, cl) == tot,
@@ -698,7 +710,6 @@ proof fn witness_rst_none()
                     proof {
                         if good {
                             assert(ipos < ev.len());
-                            assert(!(ev[ipos].kind is CData));
                             assert(!(istp is Bad));
                             if istp is Next { st = istp->Next_0; lemma_rst_end(ev, ipos + 1, st, cl); }
                         }
@@ -813,24 +824,18 @@ proof fn lemma_sst_end(ev: Seq<Ev>, i: int, s: SstSt)
         part_events(old(self).zip, sst_path()) is None ==> r is Ok && final(self).strings@ == old(self).strings@,
         //# C01,C19.sst_items_in_order
         ({ let evs = part_events(old(self).zip, sst_path());
-           evs is Some && part_readable(old(self).zip, sst_path()) && sst_part(evs->Some_0).ok
-             && no_cdata(evs->Some_0, 0, sst_part(evs->Some_0).end) ==>
+           evs is Some && part_readable(old(self).zip, sst_path()) && sst_part(evs->Some_0).ok ==>
                r is Ok && strs(final(self).strings@) =~= strs(old(self).strings@) + texts(sst_part(evs->Some_0).items) }),
         //# C01,C19.sst_index_alignment
         ({ let evs = part_events(old(self).zip, sst_path());
-           evs is Some && part_readable(old(self).zip, sst_path()) && sst_part(evs->Some_0).ok
-             && no_cdata(evs->Some_0, 0, sst_part(evs->Some_0).end) ==>
+           evs is Some && part_readable(old(self).zip, sst_path()) && sst_part(evs->Some_0).ok ==>
                r is Ok && final(self).strings@.len() == old(self).strings@.len() + sst_part(evs->Some_0).items.len()
                && forall|i: int| 0 <= i < sst_part(evs->Some_0).items.len() ==>
                       (#[trigger] final(self).strings@[old(self).strings@.len() + i])@ == text_or_empty(sst_part(evs->Some_0).items[i]) }),
-        //# C19.sst_cdata_text
-        ({ let evs = part_events(old(self).zip, sst_path());
-           evs is Some && part_readable(old(self).zip, sst_path()) && sst_part(evs->Some_0).ok ==>
-               r is Ok && strs(final(self).strings@) =~= strs(old(self).strings@) + texts(sst_part(evs->Some_0).items) }),
 //@@ before /let mut buf = /
         let ghost ev = xml.events();
         let ghost tot = sst_part(ev);
-        let ghost good = tot.ok && no_cdata(ev, 0, tot.end);
+        let ghost good = tot.ok;
         let ghost mut st = SstSt { root: false, skip: 0, items: Seq::empty() };
         let ghost s0 = self.strings@;
         proof {
@@ -844,7 +849,7 @@ proof fn lemma_sst_end(ev: Seq<Ev>, i: int, s: SstSt)
             invariant
                 ev == xml.events(), tot == sst_part(ev),
                 part_events(old(self).zip, sst_path()) == Some(ev), s0 == old(self).strings@,
-                good == (tot.ok && no_cdata(ev, 0, tot.end)),
+                good == tot.ok,
                 b"si"@ == n_si(), b"sst"@ == n_sst(), n_si() != n_sst(),
                 good ==> xml.pos() <= tot.end + 1 && tot.end < ev.len(),
                 good ==> strs(self.strings@) =~= strs(s0) + texts(st.items),
@@ -874,7 +879,6 @@ proof fn lemma_sst_end(ev: Seq<Ev>, i: int, s: SstSt)
                             assert(st0.root && st0.skip == 0);
                             assert(it.ok);
                             lemma_sst_end(ev, it.end + 1, SstSt { items: st0.items.push(it.text), ..st0 });
-                            assert(no_cdata(ev, pos + 1, it.end));
                         }
                     }
 //@@ after /self\.strings\.push\(s\);/
@@ -954,6 +958,9 @@ pub open spec fn dim_of(s: Seq<u8>) -> Option<Dimensions> {
 //@@ item src/xlsx/mod.rs const MAX_COLUMNS
 //@@ item src/xlsx/mod.rs const MAX_ROWS
 // TRUSTED: contract of unit a1 (clauses C01,C15,C17.a1_decode / a1_zero_row_rejected / a1_malformed_rejected), PROVED there on the same text
+// callee of get_row_and_optional_column (checked digit accumulation; under contract in unit a1): present only so that the text compiles
+//@@ fn src/xlsx/mod.rs add_digit external_body
+//@@ end
 //@@ fn src/xlsx/mod.rs get_row_and_optional_column props=C01 ret=r external_body
 //@@ sig
     ensures
@@ -1372,7 +1379,7 @@ pub open spec fn txt_scan(ev: Seq<Ev>, i: int, name: Seq<u8>, acc: Seq<char>) ->
         let e = ev[i];
         match e.kind {
             EvKind::Text => if e.text_ok { txt_scan(ev, i + 1, name, acc + e.text) } else { TxtRes { ok: false, text: acc, end: i } },
-            EvKind::CData => txt_scan(ev, i + 1, name, acc + e.text),
+            EvKind::CData => if e.text_ok { txt_scan(ev, i + 1, name, acc + e.text) } else { TxtRes { ok: false, text: acc, end: i } },
             EvKind::Other => txt_scan(ev, i + 1, name, acc),
             EvKind::End => if e.name =~= name { TxtRes { ok: true, text: acc, end: i } } else { TxtRes { ok: false, text: acc, end: i } },
             _ => TxtRes { ok: false, text: acc, end: i },
@@ -1412,16 +1419,11 @@ __n if __n == b"f" =>
         //# C01,C10.value_from_v
         ({ let tx = txt_scan(old(xml).events(), old(xml).pos() as int, e.ev().name, Seq::empty());
            let ty = typed_dv(c_element.ev().attrs, tx.text, strings@, formats@, is_1904);
-           e.ev().local() =~= n_v() && tx.ok && ty is Some && no_cdata(old(xml).events(), old(xml).pos() as int, tx.end) ==>
-               r is Ok && dv(r->Ok_0) == ty->Some_0 && final(xml).pos() == tx.end + 1 }),
-        //# C19.cdata_value_text
-        ({ let tx = txt_scan(old(xml).events(), old(xml).pos() as int, e.ev().name, Seq::empty());
-           let ty = typed_dv(c_element.ev().attrs, tx.text, strings@, formats@, is_1904);
            e.ev().local() =~= n_v() && tx.ok && ty is Some ==>
                r is Ok && dv(r->Ok_0) == ty->Some_0 && final(xml).pos() == tx.end + 1 }),
         //# C01,C19.value_from_inline_string
         ({ let it = rst_item(old(xml).events(), old(xml).pos() as int, e.ev().name);
-           e.ev().local() =~= n_is() && it.ok && no_cdata(old(xml).events(), old(xml).pos() as int, it.end) ==>
+           e.ev().local() =~= n_is() && it.ok ==>
                r is Ok && dv(r->Ok_0) == inline_dv(it.text) && final(xml).pos() == it.end + 1 }),
         //# C01.formula_element_skipped
         ({ let ev = old(xml).events();
@@ -1433,7 +1435,7 @@ __n if __n == b"f" =>
     let ghost ev = xml.events();
     let ghost p0 = xml.pos() as int;
     let ghost tot = txt_scan(ev, p0, e.ev().name, Seq::empty());
-    let ghost good = tot.ok && no_cdata(ev, p0, tot.end);
+    let ghost good = tot.ok;
     proof {
         axiom_bytelits();
         assert(n_is().len() != n_v().len() && n_is().len() != n_f().len() && n_v()[0] != n_f()[0]);
@@ -1445,7 +1447,7 @@ __n if __n == b"f" =>
                 invariant
                     ev == old(xml).events(), p0 == old(xml).pos(), xml.events() == ev, xml.pos() >= p0,
                     tot == txt_scan(ev, p0, e.ev().name, Seq::empty()),
-                    good == (tot.ok && no_cdata(ev, p0, tot.end)),
+                    good == tot.ok,
                     good ==> xml.pos() <= tot.end + 1 && tot.end < ev.len() && ev[tot.end].kind is End,
                     e.ev().local() =~= n_v(), !(n_v() =~= n_is()), !(n_v() =~= n_f()),
                 ensures
@@ -1453,7 +1455,7 @@ __n if __n == b"f" =>
                 decreases xml.left(),
 //@@ before /match xml\.read_event_into\(&mut v_buf\)/
                 let ghost pos = xml.pos() as int;
-                proof { if good { lemma_txt_end(ev, pos, e.ev().name, v@); assert(!(ev[pos].kind is CData)); } }
+                proof { if good { lemma_txt_end(ev, pos, e.ev().name, v@); } }
 //@@ end
 
 // =====================================================================================================================
@@ -1615,8 +1617,7 @@ proof fn witness_next_scan(cx: ShCtx)
         let ev = seq![Ev { attrs: seq![ra], ..ev_start(n_row()) }, Ev { attrs: seq![ca, ta], ..ev_start(n_c()) },
                       ev_start(n_v()), ev_text("1"@), ev_end(n_v()), ev_end(n_c())];
         let nx = next_scan(ev, 0, Cur { row: 0, col: 0 }, cx);
-        nx.ok && nx.cell == Some(((2int, 1int), DV::Bool(true))) && nx.cur == (Cur { row: 2, col: 2 }) && nx.end == 5
-            && no_cdata(ev, 0, nx.end) }),
+        nx.ok && nx.cell == Some(((2int, 1int), DV::Bool(true))) && nx.cur == (Cur { row: 2, col: 2 }) && nx.end == 5 }),
 {
     let ra = Attr { key: n_r(), raw: seq![0x33u8], val: Seq::empty(), val_ok: true, err: false };
     let ca = Attr { key: n_r(), raw: seq![0x42u8, 0x33u8], val: Seq::empty(), val_ok: true, err: false };
@@ -1656,28 +1657,28 @@ proof fn witness_next_scan(cx: ShCtx)
         //# C01.cell_position
         ({ let ev = old(self).g_events();
            let nx = next_scan(ev, old(self).g_pos() as int, old(self).g_cur(), old(self).g_cx());
-           nx.ok && nx.cell is Some && no_cdata(ev, old(self).g_pos() as int, nx.end) ==>
+           nx.ok && nx.cell is Some ==>
                (r matches Ok(Some(c)) && c.p().0 == nx.cell->Some_0.0.0 && c.p().1 == nx.cell->Some_0.0.1) }),
         //# C01,C10.cell_value
         ({ let ev = old(self).g_events();
            let nx = next_scan(ev, old(self).g_pos() as int, old(self).g_cur(), old(self).g_cx());
-           nx.ok && nx.cell is Some && no_cdata(ev, old(self).g_pos() as int, nx.end) ==>
+           nx.ok && nx.cell is Some ==>
                (r matches Ok(Some(c)) && dv(c.v()) == nx.cell->Some_0.1) }),
         //# C01.cursor_update
         ({ let ev = old(self).g_events();
            let nx = next_scan(ev, old(self).g_pos() as int, old(self).g_cur(), old(self).g_cx());
-           nx.ok && no_cdata(ev, old(self).g_pos() as int, nx.end) ==>
+           nx.ok ==>
                final(self).g_cur() == nx.cur && final(self).g_pos() == nx.end + 1 }),
         //# C01.end_of_sheet_data
         ({ let ev = old(self).g_events();
            let nx = next_scan(ev, old(self).g_pos() as int, old(self).g_cur(), old(self).g_cx());
-           nx.ok && nx.cell is None && no_cdata(ev, old(self).g_pos() as int, nx.end) ==> r matches Ok(None) }),
+           nx.ok && nx.cell is None ==> r matches Ok(None) }),
 //@@ body
         let ghost ev = self.xml.events();
         let ghost p0 = self.xml.pos() as int;
         let ghost cx = ShCtx { strings: self.strings@, formats: self.formats@, is_1904: self.is_1904 };
         let ghost tot = next_scan(ev, p0, Cur { row: self.row_index as int, col: self.col_index as int }, cx);
-        let ghost good = tot.ok && no_cdata(ev, p0, tot.end);
+        let ghost good = tot.ok;
         proof {
             axiom_bytelits();
             assert(n_row().len() != n_c().len() && n_row().len() != n_sheetdata().len() && n_c().len() != n_sheetdata().len());
@@ -1690,7 +1691,7 @@ proof fn witness_next_scan(cx: ShCtx)
                 self.strings@ == old(self).strings@, self.formats@ == old(self).formats@, self.is_1904 == old(self).is_1904,
                 cx == (ShCtx { strings: old(self).strings@, formats: old(self).formats@, is_1904: old(self).is_1904 }),
                 tot == next_scan(ev, p0, Cur { row: old(self).row_index as int, col: old(self).col_index as int }, cx),
-                good == (tot.ok && no_cdata(ev, p0, tot.end)),
+                good == tot.ok,
                 b"row"@ == n_row(), b"c"@ == n_c(), b"sheetData"@ == n_sheetdata(), b"r"@ == n_r(),
                 b"v"@ == n_v(), b"is"@ == n_is(), b"f"@ == n_f(),
                 !(n_v() =~= n_f()), !(n_v() =~= n_is()), !(n_is() =~= n_f()),
@@ -1721,7 +1722,7 @@ proof fn witness_next_scan(cx: ShCtx)
                             ev == old(self).xml.events(), p0 == old(self).xml.pos(), self.xml.events() == ev, self.xml.pos() > gp, gp >= p0, gp < ev.len(),
                             self.strings@ == old(self).strings@, self.formats@ == old(self).formats@, self.is_1904 == old(self).is_1904,
                             cx == (ShCtx { strings: old(self).strings@, formats: old(self).formats@, is_1904: old(self).is_1904 }),
-                            good == (tot.ok && no_cdata(ev, p0, tot.end)),
+                            good == tot.ok,
                             tot == next_scan(ev, p0, Cur { row: old(self).row_index as int, col: old(self).col_index as int }, cx),
                             cattrs == c_element.ev().attrs,
                             b"c"@ == n_c(), b"v"@ == n_v(), b"is"@ == n_is(), b"f"@ == n_f(),
@@ -1763,13 +1764,11 @@ proof fn witness_next_scan(cx: ShCtx)
                                             assert(!seen && tx.ok && ty is Some && ipos < tx.end);
                                             assert(cell_scan(ev, tx.end + 1, cattrs, ty->Some_0, true, cx) == ctot);
                                             lemma_cell_end(ev, tx.end + 1, cattrs, ty->Some_0, true, cx);
-                                            assert(no_cdata(ev, ipos + 1, tx.end));
                                         } else if ce.local() =~= n_is() {
                                             let it = rst_item(ev, ipos + 1, ce.name);
                                             assert(!seen && it.ok && ipos < it.end);
                                             assert(cell_scan(ev, it.end + 1, cattrs, inline_dv(it.text), true, cx) == ctot);
                                             lemma_cell_end(ev, it.end + 1, cattrs, inline_dv(it.text), true, cx);
-                                            assert(no_cdata(ev, ipos + 1, it.end));
                                         } else if ce.local() =~= n_f() {
                                             let k = rte_stop(ev, ipos + 1, ce.name, 0);
                                             assert(!seen && ipos < k < ev.len() && ev[k].kind is End);
